@@ -92,6 +92,11 @@ def check_redirect(ctx, spec):
     n, new_root, sort = len(pid), int(spec["new_root"]), bool(spec["sort"])
     V = lambda clause, obs, exp: ctx.violation(carrier, clause, spec, obs, exp, spec)  # noqa: E731
     tree = build(pid, 1)
+    if spec.get("first") is not None:
+        # two-step history: the input is itself a re-rooted tree kept unsorted (its root is NOT node 0)
+        tree = redirect_tree(tree, int(spec["first"]), sort=False)
+        pid = [int(v) for v in tree.pid()]
+    old_root = pid.index(-1)
     orig = snapshot_tree(tree)
     try:
         res = redirect_tree(tree, new_root, sort=sort)
@@ -114,13 +119,13 @@ def check_redirect(ctx, spec):
                     if not np.array_equal(got, want) or got.dtype != want.dtype:
                         V("nodes-and-attributes-kept", f"{col} = {got.tolist()}", f"{col} = {want.tolist()} (old ids {olds})")
                 want_type = {i: int(orig["type"][i]) for i in range(n)}
-                want_type[0], want_type[new_root] = int(orig["type"][new_root]), int(orig["type"][0])
+                want_type[old_root], want_type[new_root] = int(orig["type"][new_root]), int(orig["type"][old_root])
                 got_type = {o: int(res.type()[k]) for k, o in enumerate(olds)}
-                other = {o for o in range(n) if o not in (0, new_root) and got_type[o] != want_type[o]}
+                other = {o for o in range(n) if o not in (old_root, new_root) and got_type[o] != want_type[o]}
                 if other:
                     V("nodes-and-attributes-kept", f"types by old id {got_type}", f"{want_type}")
                 elif got_type != want_type:
-                    V("root-types-exchanged", f"types by old id {got_type}", f"{want_type} (old root 0 and new root {new_root} exchanged)")
+                    V("root-types-exchanged", f"types by old id {got_type}", f"{want_type} (old root {old_root} and new root {new_root} exchanged)")
                 ids, pids = [int(v) for v in res.id()], [int(v) for v in res.pid()]
                 pos = {int(i): k for k, i in enumerate(ids)}
                 if len(pos) != n or (sort and ids != list(range(n))) or (not sort and olds != ids):
@@ -140,7 +145,7 @@ def check_redirect(ctx, spec):
                         V("unique-root-is-requested", f"pids {pids}", "sorted: root first, parents before children")
     except Exception as e:
         V("operation-raises", f"{type(e).__name__}: {e}", "no exception")
-    ctx.case(carrier, spec, nontrivial=n >= 2 and new_root != 0)
+    ctx.case(carrier, spec, nontrivial=n >= 2 and new_root != old_root)
 
 
 # ---------------------------------------------------------------- cat_tree
@@ -155,7 +160,7 @@ def check_cat(ctx, spec):
     t1 = build(pid1, 1)
     t2 = build(pid2, 2)
     if placed:  # second tree given such that the junction nodes already coincide
-        t2 = build(pid2, 2, shift=(t1.xyz()[node1].astype(np.float64) - t2.xyz()[node2].astype(np.float64)))
+        t2 = build(pid2, 2, shift=(t1.xyz()[node1].astype(np.float64) - t2.xyz()[node2].astype(np.float64)) + np.array([float(spec.get("gap", 0.0)), 0.0, 0.0]))
     o1, o2 = snapshot_tree(t1), snapshot_tree(t2)
     xyz1, xyz2 = t1.xyz().astype(np.float64), t2.xyz().astype(np.float64)
     delta = (xyz1[node1] - xyz2[node2]) if translate else np.zeros(3)
@@ -262,6 +267,10 @@ def run(ctx):
             for new_root in range(n):
                 for sort in (True, False):
                     check_redirect(lim, dict(pid=list(pid), new_root=new_root, sort=sort))
+            if 3 <= n <= (5 if thorough else 4):
+                for first in range(1, n):
+                    for new_root in range(n):
+                        check_redirect(lim, dict(pid=list(pid), first=first, new_root=new_root, sort=bool((first + new_root) % 2)))
     t1s = [list(p) for n in range(1, na + 1) for p in sorted_parent_tables(n)]
     t2s = [list(p) for n in range(1, nb + 1) for p in sorted_parent_tables(n)]
     for p1 in t1s:
@@ -271,9 +280,12 @@ def run(ctx):
                     for translate in (True, False):
                         for placed in (False, True):
                             check_cat(lim, dict(pid1=p1, pid2=p2, node1=node1, node2=node2, translate=translate, coincident_input=placed))
+                        if not translate and len(p1) <= 3 and len(p2) <= 3:
+                            for gap in (2e-3, 2.5e-4):  # close but NOT coincident junction nodes: linked, never merged
+                                check_cat(lim, dict(pid1=p1, pid2=p2, node1=node1, node2=node2, translate=False, coincident_input=True, gap=gap))
     ctx.rule(
         f"redirect_tree: every sorted parent table <= {nr} nodes x every new root x sort on/off; cat_tree: every pair (first <= {na} nodes, second <= {nb} nodes) x every junction pair x "
-        "translate on/off x second tree given apart / already coincident at the junction (so merge and plain link both occur in both modes). Exact quarter-lattice coordinates, distinct types and radii. "
+        "translate on/off x second tree given apart / already coincident at the junction (so merge and plain link both occur in both modes) / 2e-3 and 2.5e-4 away from it (linked, not merged); two-step re-rooting histories (first re-root unsorted, so the root is not node 0). Exact quarter-lattice coordinates, distinct types and radii. "
         "Non-trivial (redirect) = new root differs from the old one",
         exhaustive=True,
     )
